@@ -1204,7 +1204,7 @@ class Extractor:
             if end is None or has_block:
                 continue
             text = src[toks[s_].start:end]
-            if re.search(r'(\.write_[a-z0-9_]*|\.write|write_zeros|write_box_header_ext|\.write_box|::write_box|\.write_desc|\bwrite_desc)\s*(::<\w+>)?\s*\(', text):
+            if re.search(r'(\.write_[a-z0-9_]*|\.write|write_zeros|write_box_header_ext|write_null_terminated_str|\.write_box|::write_box|\.write_desc|\bwrite_desc)\s*(::<\w+>)?\s*\(', text):
                 res.append(end)
         return sorted(set(res))
 
